@@ -32,6 +32,7 @@ BLEN = len(BODY_POINTS)
 # (initial directory, body outcome)
 SCENARIOS = [("fresh", "ok"), ("failed", "ok"), ("done", "ok"), ("fresh", "exc"), ("fresh", "exit3"), ("fresh", "exit0")]
 WORKERS = 16
+CASE_KEYS = ("scenario", "k", "sig", "bodykill", "loc", "k2", "sig2", "loc2")
 
 # known findings: the assembled known_findings.json is written by the lead (tools/mkmanifest.py); until then
 # (and afterwards, identically) the fragment of this property is read directly  -- local work-around, see report
@@ -216,7 +217,10 @@ def run_case(tpl, case):
     try:
         sig = SIGS.get(case["sig"], 0)
         bk = f"{case['bodykill']}:{sig}" if case.get("bodykill") else ""
-        rc = launch(tpl, jd, case.get("k", 0) if not bk else 0, sig, outcome, bk)
+        if bk and case.get("sig2"):  # fault sequence: signal inside the body, then a second one at the k2-th line of run.py
+            rc = launch(tpl, jd, case["k2"], SIGS[case["sig2"]], outcome, bk)
+        else:
+            rc = launch(tpl, jd, case.get("k", 0) if not bk else 0, sig, outcome, bk)
         st = dirstate(tpl, jd)
         bl = bodylog(jd)
         eff = _read_log(jd / "efflog")
@@ -253,6 +257,46 @@ def _cleanup_stage(pre, kill, after):
     return after
 
 
+MF = [True]  # probed order of handle_error: failure marker first (True, the source) or clean-up first
+
+
+def probe_marker_first(obs_failing):
+    """order of the effects of handle_error on an undisturbed failing run (effect log)"""
+    ev = obs_failing["pre"]
+    w = next((j for j, e in enumerate(ev) if e["ev"] == "write" and e.get("name") == ".failed"), None)
+    c = next((j for j, e in enumerate(ev) if e["ev"] in ("is_file", "unlink") and e.get("name") == ".pid"), None)
+    return True if w is None or c is None else w < c
+
+
+def _herr_stage(pre, kill, nth):
+    """next action of the `nth` invocation of handle_error in this process (write | test | rmPid | relLock | exit)"""
+    wrote = sum(1 for e in pre if e["ev"] == "write" and e.get("name") == ".failed") >= nth
+    if MF[0]:
+        return _cleanup_stage(pre, kill, "exit") if wrote else "write"
+    cs = _cleanup_stage(pre, kill, "after")
+    if cs != "after":
+        return cs
+    return "exit" if wrote else "write"
+
+
+def _herr_first():
+    return "write" if MF[0] else "test"
+
+
+def model_loc2(case, obs):
+    """position of the *second* fault of a sequence (signal inside the body, then the k2-th line of run.py)"""
+    kill, pre = obs["kill"], obs["pre"]
+    stack = kill.get("stack") or []
+    if _has(pre, "lines"):
+        return model_loc(dict(case, bodykill=None), obs)  # atexit: as for a single fault
+    if "handle_error" in stack or "cleanup" in stack:
+        if kill.get("in_handler"):  # called from `except SystemExit`: second invocation
+            return "herr:" + _herr_stage(pre, kill, 2)
+        return "hnd:" + _herr_stage(pre, kill, 1)  # running as the signal handler, on top of the body frame
+    # the handler is over, SystemExit(1) is in flight or the except clause has not called handle_error yet
+    return "herr:" + _herr_first()
+
+
 def model_loc(case, obs):
     """the location of the model that corresponds to the point at which the signal was delivered"""
     outcome = case["scenario"][1]
@@ -272,14 +316,12 @@ def model_loc(case, obs):
             return "fin:test"
         return f"fin:{st}"
     if "handle_error" in stack:  # handle_error called from an except clause (signal handlers run inside the tracer, untraced)
-        if not _has(pre, "write", name=".failed"):
-            return "herr:write"
-        return "herr:" + _cleanup_stage(pre, kill, "exit")
+        return "herr:" + _herr_stage(pre, kill, 1)
     body_ok = "end" in obs["bodylog"]
     if kill.get("in_handler"):
         if body_ok:
             return "reraise" if _has(pre, "touch", name=".done") else "touch"
-        return "herr:write"
+        return "herr:" + _herr_first()
     if kill.get("in_try"):
         if not acquired:
             return "tryLock"
@@ -335,8 +377,12 @@ def canon_model(m):
 def model_line(case, loc, unreg):
     init, outcome = case["scenario"]
     o, n = ("exit", int(outcome[4:])) if outcome.startswith("exit") else (outcome, 0)
-    return {"op": "crash", "unreg": unreg, "init": {"done": init == "done", "failed": 1 if init == "failed" else None},
+    line = {"op": "crash", "unreg": unreg, "markerfirst": MF[0],
+            "init": {"done": init == "done", "failed": 1 if init == "failed" else None},
             "outcome": o, "n": n, "blen": BLEN, "at": loc or "", "sig": case["sig"] if loc else "none"}
+    if case.get("sig2") and case.get("loc2"):
+        line.update(at2=case["loc2"], sig2=case["sig2"])
+    return line
 
 
 # ---------------------------------------------------------------- monitors (implementation only)
@@ -347,7 +393,9 @@ def monitors(ctx, case, obs):
     sig = case["sig"]
     d, r = obs["dir"], obs["relaunch"]
     tag = f"{init}/{outcome} k={case.get('k', 0)} body={case.get('bodykill', '')} sig={sig}"
-    rcase = {k: case[k] for k in ("scenario", "k", "sig", "bodykill") if k in case}
+    if case.get("sig2"):
+        tag += f" then line {case['k2']} sig={case['sig2']}"
+    rcase = {k: case[k] for k in ("scenario", "k", "sig", "bodykill", "k2", "sig2") if k in case}
     # 1. a success marker only if the task body ran to completion
     if d["done"] and init != "done" and not obs["completed"]:
         ctx.monitor_fail("done-without-completion", f"[{tag}] success marker present although the body never completed (body log {obs['bodylog']})", rcase)
@@ -361,11 +409,23 @@ def monitors(ctx, case, obs):
     if not r["dir"]["done"] or (r["ran"] == 1 and not r["completed"]):
         ctx.monitor_fail("relaunch-not-done", f"[{tag}] the undisturbed relaunch did not end with a success marker: {r}", rcase)
     # 4. SIGTERM/SIGINT received while the body runs leaves a failure marker and no success marker
-    if sig in ("term", "int") and case.get("bodykill"):
+    if sig in ("term", "int") and case.get("bodykill") and case.get("sig2") == "kill":
+        # ... followed by a hard kill: there is an unavoidable window before the handler has done anything, but once
+        # the process has begun its clean-up (its pid file is gone) the failure marker must be there
+        if not d["pid"] and (d["failed"] is None or d["done"]):
+            ctx.monitor_fail("signal-in-body-then-kill:no-marker-after-cleanup",
+                             f"[{tag}] termination signal while the body ran, the process removed its pid file and was then killed: "
+                             f"the directory shows no failure marker: {d}", rcase)
+    elif sig in ("term", "int") and case.get("bodykill"):
         if d["failed"] is None or d["done"]:
             ctx.monitor_fail("signal-in-body-markers", f"[{tag}] termination signal while the body ran left {d}", rcase)
         if obs["rc"] in (0, None):
             ctx.monitor_fail("signal-in-body-status", f"[{tag}] termination signal while the body ran but exit status {obs['rc']}", rcase)
+    # 4b. the task failed on its own and the process was killed hard while it was cleaning up: same requirement
+    if sig == "kill" and not case.get("bodykill") and outcome in ("exc", "exit3") and obs["rc"] == -9 \
+            and BODY_POINTS[-1] in obs["bodylog"] and not d["pid"] and d["failed"] is None:
+        ctx.monitor_fail("failure-then-kill:no-marker-after-cleanup",
+                         f"[{tag}] the task failed, the process removed its pid file and was then killed: no failure marker: {d}", rcase)
     # 5. a job that ended on its own, successfully or not, leaves no pid file behind
     if sig == "none" and d["pid"]:
         key = "own-exit-pid-left:success" if obs["rc"] == 0 and d["done"] and obs["starts"] == 1 and outcome == "ok" else f"own-exit-pid-left:{outcome}:{init}"
@@ -394,11 +454,40 @@ def run_all(ctx, tpl, cases):
 def baseline(ctx, tpl):
     """undisturbed run of every scenario: number of executed lines, F7 probe"""
     cases = [{"scenario": list(sc), "k": 0, "sig": "none"} for sc in SCENARIOS]
-    obs = run_all(ctx, tpl, cases)
-    for c, o in zip(cases, obs):
+    seq = {"scenario": list(SCENARIOS[0]), "bodykill": SEQ_POINT, "sig": "term", "k": 0}  # lines of the handler path
+    obs = run_all(ctx, tpl, cases + [seq])
+    for c, o in zip(cases + [seq], obs):
         if o["rc"] == "timeout" or o["nlines"] == 0:
             raise RuntimeError(f"baseline {c} did not run: {o['rc']} {o['stderr']}")
-    return cases, obs
+    MF[0] = probe_marker_first(obs[3])
+    SEQ_RANGE[:] = _handler_range(obs[-1])
+    return cases, obs[:-1]
+
+
+SEQ_POINT = "b1"     # body point at which the first signal of a fault sequence is delivered
+SEQ_RANGE = [0, 0]   # line events of run.py from the start of the handler to the end of the process
+
+
+def _handler_range(o):
+    ev = o["pre"]
+    first = next((e.get("n", 0) for e in ev if (e["ev"] == "write" and e.get("name") == ".failed")
+                  or (e["ev"] == "is_file" and e.get("name") == ".pid")), 0)
+    return [max(1, first - 3), o["nlines"]] if first else [0, 0]
+
+
+def plan_sequences(ctx, thorough):
+    """fault sequences: SIGTERM/SIGINT inside the body, then SIGKILL (or a second signal) at every line that the
+    handler, `except SystemExit`, the second handle_error and the atexit clean-up execute afterwards"""
+    lo, hi = SEQ_RANGE
+    if not hi:
+        return []
+    cases = []
+    for first in (("term", "int") if thorough else ("term",)):
+        for k2 in range(lo, hi + 1):
+            seconds = list(SIGS) if thorough else (["kill"] + (["term", "int"] if k2 % 5 == 0 else []))
+            for s2 in seconds:
+                cases.append({"scenario": list(SCENARIOS[0]), "bodykill": SEQ_POINT, "sig": first, "k": 0, "k2": k2, "sig2": s2})
+    return cases
 
 
 def evaluate(ctx, tpl, cases, unreg, with_model=True):
@@ -411,16 +500,23 @@ def evaluate(ctx, tpl, cases, unreg, with_model=True):
             # the k-th line was never reached (shorter path): nothing was delivered
             ctx.count("skipped", "line-not-reached")
             continue
+        if c.get("sig2") and (o["kill"] is None or c["bodykill"] not in o["bodylog"]):
+            # the second fault came before the first (or its line was never reached): not a sequence
+            ctx.count("skipped", "second-fault-not-after-first")
+            continue
         monitors(ctx, c, o)
         loc = model_loc(c, o) if c["sig"] != "none" else None
         c = dict(c, loc=loc)
+        if c.get("sig2"):
+            c["loc2"] = model_loc2(c, o)
+            ctx.count("second_fault", f"{c['loc2']} {c['sig2']}")
         cases[i] = c
         ctx.count("signal", c["sig"])
         ctx.count("scenario", "/".join(c["scenario"]))
         ctx.count("model_location", f"{(loc or 'undisturbed').split(':')[0] if (loc or '').startswith('body') else (loc or 'undisturbed')}")
         ctx.count("exit_status", o["rc"])
         ctx.count("directory_after_death", f"done={int(o['dir']['done'])} failed={o['dir']['failed']} pid={int(o['dir']['pid'])}")
-        ctx.case({k: c.get(k) for k in ("scenario", "k", "sig", "bodykill", "loc")}, nontrivial=loc not in (None, "init"))
+        ctx.case({k: c.get(k) for k in CASE_KEYS if c.get(k) is not None}, nontrivial=loc not in (None, "init"))
         ctx.traces_validated += 1
         lines.append(model_line(c, loc, unreg))
         idx.append(i)
@@ -436,8 +532,8 @@ def evaluate(ctx, tpl, cases, unreg, with_model=True):
         if cm != ci:
             c = cases[i]
             k = obs[i]["kill"] or {}
-            ctx.disagree({k_: c.get(k_) for k_ in ("scenario", "k", "sig", "bodykill", "loc")}, cm, ci,
-                         f"model and implementation differ at {k.get('func')}:{k.get('line')} (model location {c.get('loc')})")
+            ctx.disagree({k_: c.get(k_) for k_ in CASE_KEYS if c.get(k_) is not None}, cm, ci,
+                         f"model and implementation differ at {k.get('func')}:{k.get('line')} (model location {c.get('loc')} {c.get('loc2') or ''})")
     return cases, obs
 
 
@@ -468,14 +564,15 @@ def plan(ctx, nlines, thorough, k0=0):
 
 def correspond(ctx):
     ctx.rule = ("cases = (initial directory, body outcome) x (k-th executed line of run.py | point inside the body) x "
-                "(SIGKILL, SIGTERM, SIGINT), each followed by an undisturbed relaunch; thorough enumerates every executed line, "
+                "(SIGKILL, SIGTERM, SIGINT), plus fault sequences (signal inside the body, then a second fault at every line executed "
+                "afterwards), each followed by an undisturbed relaunch; thorough enumerates every executed line, "
                 "quick a seeded subset; non-trivial = the signal arrives after TaskRunner.run registered its clean-up "
                 "(model location != init); distinct = distinct (scenario, line, signal, model location)")
     ctx.assumptions += [
         "fcntl/fasteners file locks: one holder, released by the OS when the holder dies (model rule, exercised by the lock probe after every death)",
         "POSIX signal delivery, CPython runs Python-level handlers between bytecodes of the main thread, atexit semantics (exercised, not proved)",
         "signals are delivered at line boundaries of run.py and at three points inside the task body; finer bytecode boundaries are not enumerated",
-        "one SIGTERM/SIGINT per real process in the enumeration (the model and the theorems allow any number)",
+        "at most two faults per real process in the enumeration (the model and the theorems allow any number)",
     ]
     tpl = get_template(ctx)
     bcases, bobs = baseline(ctx, tpl)
@@ -489,7 +586,11 @@ def correspond(ctx):
     thorough = ctx.tier == "thorough"
     k0 = next((e.get("n", 0) for e in bobs[0]["pre"] if e["ev"] == "lock-acquired"), 0)
     ctx.notes.append(f"lines executed before the run lock is held: {k0} (enumerated once, under fresh/ok)")
-    cases = bcases + plan(ctx, nlines, thorough, k0)
+    ctx.notes.append(f"order of handle_error probed on the undisturbed failing run: failure marker {'before' if MF[0] else 'AFTER'} the clean-up; "
+                     f"theorems signal_in_body_marks_failed / marker_precedes_cleanup {'apply' if MF[0] else 'do not apply to this source'}")
+    ctx.extra_cov["source_variant_marker_first"] = MF[0]
+    ctx.notes.append(f"fault sequences: second fault at line events {SEQ_RANGE[0]}..{SEQ_RANGE[1]} after a signal at body point {SEQ_POINT}")
+    cases = bcases + plan(ctx, nlines, thorough, k0) + plan_sequences(ctx, thorough)
     cases, obs = evaluate(ctx, tpl, cases, unreg)
     ctx.exhaustive = thorough
     # coverage of the model's locations by real kill points
@@ -513,7 +614,7 @@ def search(ctx):
     nlines = {tuple(c["scenario"]): o["nlines"] for c, o in zip(bcases, bobs)}
     t0 = time.time()
     k0 = next((e.get("n", 0) for e in bobs[0]["pre"] if e["ev"] == "lock-acquired"), 0)
-    cases = bcases + plan(ctx, nlines, True, k0)
+    cases = bcases + plan_sequences(ctx, True) + plan(ctx, nlines, True, k0)
     for i in range(0, len(cases), 96):
         if time.time() - t0 > ctx.scale(60, 600) or [m for m in ctx.monitor_failures if not m["key"].startswith("own-exit-pid-left:success")]:
             break
